@@ -27,6 +27,8 @@ def sample_value(sp, rng, sizes, shared, path):
         return rng.randint(lo, max(lo, hi))
     if isinstance(sp, S.Bool):
         return rng.random() < 0.5
+    if isinstance(sp, S.Complex):
+        return {'__cx__': [frac(rng), frac(rng)]}
     if isinstance(sp, S.Size):
         return size_of(sp.name, rng, sizes)
     if isinstance(sp, S.Arr):
